@@ -53,6 +53,7 @@ struct network_ssl_ctx {
 	int waiting_r;
 	int waiting_w;
 	void * immediate_cookie;
+	int * closed_ptr;
 
 	/* Pending read operation. */
 	int (* read_callback)(void *, ssize_t);
@@ -446,20 +447,37 @@ dowrite(struct network_ssl_ctx * ssl)
 static int
 poke(struct network_ssl_ctx * ssl)
 {
+	int closed = 0;
+	int rc;
+
+	/*
+	 * A callback might call network_ssl_close(), in which case we must
+	 * not touch the context again; ask to be told if that happens.
+	 */
+	ssl->closed_ptr = &closed;
 
 	/* Should we try to read? */
 	if (ssl->read_callback != NULL &&
 	    !ssl->read_needs_r && !ssl->read_needs_w) {
-		if (doread(ssl))
-			goto err0;
+		rc = doread(ssl);
+		if (closed)
+			return (rc);
+		if (rc)
+			goto err1;
 	}
 
 	/* Should we try to write? */
 	if (ssl->write_callback != NULL &&
 	    !ssl->write_needs_r && !ssl->write_needs_w) {
-		if (dowrite(ssl))
-			goto err0;
+		rc = dowrite(ssl);
+		if (closed)
+			return (rc);
+		if (rc)
+			goto err1;
 	}
+
+	/* The context still exists. */
+	ssl->closed_ptr = NULL;
 
 	/* Wait for socket readability/writability as needed. */
 	if (setupevents(ssl))
@@ -468,6 +486,8 @@ poke(struct network_ssl_ctx * ssl)
 	/* Success! */
 	return (0);
 
+err1:
+	ssl->closed_ptr = NULL;
 err0:
 	/* Failure! */
 	return (-1);
@@ -497,6 +517,7 @@ network_ssl_open(int s, const char * hostname)
 	ssl->s = s;
 	ssl->waiting_r = ssl->waiting_w = 0;
 	ssl->immediate_cookie = NULL;
+	ssl->closed_ptr = NULL;
 	ssl->read_callback = NULL;
 	ssl->read_cookie = NULL;
 	ssl->read_buf = NULL;
@@ -721,6 +742,10 @@ network_ssl_close(struct network_ssl_ctx * ssl)
 	/* Cancel a pending immediate event. */
 	if (ssl->immediate_cookie)
 		events_immediate_cancel(ssl->immediate_cookie);
+
+	/* If we were called from a callback, tell poke() that we're gone. */
+	if (ssl->closed_ptr != NULL)
+		*(ssl->closed_ptr) = 1;
 
 	/* Must not have operations in progress. */
 	assert(ssl->read_callback == NULL);
